@@ -11,6 +11,7 @@
 #include <stdexcept>
 #include <string>
 #include <vector>
+#include <unistd.h>
 
 namespace vc
 {
@@ -248,16 +249,19 @@ namespace vc
         }
     };
 
-    // full product over the first d choice points (odometer over the recorded arities), everything later at default
+    // full product over the first d choice points of the selected kinds (odometer over the recorded arities), everything
+    // else at default. The position of the j-th selected point is fixed by the answers before it, so prefixes stay valid.
     struct Product
     {
         size_t depth = 3;
         std::function<bool()> expired;
+        std::function<bool(unsigned char)> kinds;
         long executions = 0;
         bool cut = false;
         void explore(const std::function<std::vector<Point>(const std::map<size_t, int> &)> &run)
         {
-            std::vector<int> cur;  // answers for positions 0..cur.size()-1
+            std::vector<int> cur;      // answers for the selected points 0..cur.size()-1
+            std::vector<size_t> posOf;  // their positions in the trace
             for (;;)
             {
                 if (expired && expired())
@@ -268,14 +272,17 @@ namespace vc
                 std::map<size_t, int> dev;
                 for (size_t i = 0; i < cur.size(); ++i)
                     if (cur[i])
-                        dev[i] = cur[i];
+                        dev[posOf[i]] = cur[i];
                 std::vector<Point> tr = run(dev);
                 ++executions;
-                size_t n = std::min(depth, tr.size());
+                posOf.clear();
+                for (size_t i = 0; i < tr.size() && posOf.size() < depth; ++i)
+                    if (!kinds || kinds(tr[i].kind))
+                        posOf.push_back(i);
+                size_t n = posOf.size();
                 cur.resize(n, 0);
-                // odometer: advance the last position that still has alternatives
                 long i = (long)n - 1;
-                while (i >= 0 && cur[i] + 1 >= tr[i].arity)
+                while (i >= 0 && cur[i] + 1 >= tr[posOf[i]].arity)
                     --i;
                 if (i < 0)
                     return;
